@@ -1054,6 +1054,84 @@ def _fastgen(o):
 EXTRA.append(_fastgen)
 
 
+# ---------------------------------------------------------------------------
+# whole-function snapshots of everything the model was read off (all properties)
+# ---------------------------------------------------------------------------
+
+# group -> [(file, class or None, function)]
+SRC_GROUPS = {
+    'text': [('gemato/manifest.py', 'ManifestPathEntry', 'decode_char'), ('gemato/manifest.py', 'ManifestPathEntry', 'process_path'),
+             ('gemato/manifest.py', 'ManifestPathEntry', 'encode_char'), ('gemato/manifest.py', 'ManifestPathEntry', 'encoded_path'),
+             ('gemato/manifest.py', 'ManifestFileEntry', 'process_checksums'), ('gemato/manifest.py', 'ManifestFileEntry', 'to_list'),
+             ('gemato/manifest.py', 'ManifestEntryTIMESTAMP', 'from_list'), ('gemato/manifest.py', 'ManifestEntryTIMESTAMP', 'to_list'),
+             ('gemato/manifest.py', 'ManifestEntryIGNORE', 'from_list'), ('gemato/manifest.py', 'ManifestEntryIGNORE', 'to_list'),
+             ('gemato/manifest.py', 'ManifestEntryDIST', 'from_list'), ('gemato/manifest.py', 'ManifestEntryAUX', 'from_list'),
+             ('gemato/manifest.py', 'ManifestEntryAUX', 'to_list'), ('gemato/manifest.py', 'ManifestEntryDATA', 'from_list'),
+             ('gemato/manifest.py', None, '_text_lines'), ('gemato/manifest.py', 'ManifestFile', 'load'),
+             ('gemato/manifest.py', 'ManifestFile', 'dump'), ('gemato/manifest.py', 'ManifestFile', 'find_path_entry')],
+    'verify': [('gemato/verify.py', None, 'get_file_metadata'), ('gemato/verify.py', None, 'verify_path'),
+               ('gemato/verify.py', None, 'update_entry_for_path'), ('gemato/verify.py', None, 'verify_entry_compatibility'),
+               ('gemato/util.py', None, 'path_starts_with'), ('gemato/util.py', None, 'path_inside_dir'),
+               ('gemato/util.py', None, 'throw_exception')],
+    'loader': [('gemato/recursiveloader.py', 'ManifestLoader', 'verify_and_load'),
+               ('gemato/recursiveloader.py', 'ManifestRecursiveLoader', '__init__'),
+               ('gemato/recursiveloader.py', 'ManifestRecursiveLoader', 'load_manifest'),
+               ('gemato/recursiveloader.py', 'ManifestRecursiveLoader', '_iter_unordered_manifests_for_path'),
+               ('gemato/recursiveloader.py', 'ManifestRecursiveLoader', '_iter_manifests_for_path'),
+               ('gemato/recursiveloader.py', 'ManifestRecursiveLoader', 'load_manifests_for_path'),
+               ('gemato/recursiveloader.py', 'ManifestRecursiveLoader', 'find_timestamp'),
+               ('gemato/recursiveloader.py', 'ManifestRecursiveLoader', 'find_path_entry'),
+               ('gemato/recursiveloader.py', 'ManifestRecursiveLoader', 'find_dist_entry'),
+               ('gemato/recursiveloader.py', 'ManifestRecursiveLoader', 'verify_path'),
+               ('gemato/recursiveloader.py', 'ManifestRecursiveLoader', 'assert_path_verifies'),
+               ('gemato/recursiveloader.py', 'ManifestRecursiveLoader', 'get_file_entry_dict')],
+    'walk': [('gemato/recursiveloader.py', 'SubprocessVerifier', '_verify_one_file'),
+             ('gemato/recursiveloader.py', 'SubprocessVerifier', '__call__'),
+             ('gemato/recursiveloader.py', 'ManifestRecursiveLoader', 'assert_directory_verifies')],
+    'update': [('gemato/recursiveloader.py', 'ManifestRecursiveLoader', 'save_manifest'),
+               ('gemato/recursiveloader.py', 'ManifestRecursiveLoader', 'save_manifests'),
+               ('gemato/recursiveloader.py', 'ManifestRecursiveLoader', 'update_entry_for_path'),
+               ('gemato/recursiveloader.py', 'ManifestRecursiveLoader', 'get_deduplicated_file_entry_dict_for_update'),
+               ('gemato/recursiveloader.py', 'ManifestRecursiveLoader', 'create_manifest'),
+               ('gemato/recursiveloader.py', 'ManifestRecursiveLoader', 'set_timestamp'),
+               ('gemato/recursiveloader.py', 'ManifestRecursiveLoader', 'load_unregistered_manifests'),
+               ('gemato/recursiveloader.py', 'ManifestRecursiveLoader', 'update_entries_for_directory'),
+               ('gemato/compression.py', None, 'open_potentially_compressed_path'),
+               ('gemato/compression.py', None, 'get_potential_compressed_names'),
+               ('gemato/compression.py', None, 'get_compressed_suffix_from_filename')],
+    'findtop': [('gemato/find_top_level.py', None, 'find_top_level_manifest')],
+    'hash': [('gemato/hash.py', None, 'get_hash_by_name'), ('gemato/hash.py', None, 'hash_file'),
+             ('gemato/hash.py', None, 'hash_path'), ('gemato/manifest.py', None, 'manifest_hashes_to_hashlib')],
+    'pgp': [('gemato/openpgp.py', 'SystemGPGEnvironment', 'verify_file'), ('gemato/openpgp.py', 'SystemGPGEnvironment', 'clear_sign_file'),
+            ('gemato/openpgp.py', 'SystemGPGEnvironment', '_spawn_gpg'), ('gemato/openpgp.py', 'IsolatedGPGEnvironment', '_spawn_gpg')],
+    'cli': [('gemato/cli.py', None, 'main'), ('gemato/cli.py', 'VerifyCommand', '__call__'),
+            ('gemato/cli.py', 'UpdateCommand', '__call__'), ('gemato/cli.py', 'CreateCommand', '__call__'),
+            ('gemato/cli.py', None, 'verify_failure')],
+}
+
+
+def _srcsnap(o):
+    cache = {}
+
+    def body(fl, cls, fn):
+        if fl not in cache:
+            cache[fl] = _src(fl)
+        f = find_func(cache[fl], fn, cls)
+        b = f.body
+        if b and isinstance(b[0], ast.Expr) and isinstance(getattr(b[0], 'value', None), ast.Constant) \
+                and isinstance(b[0].value.value, str):
+            b = b[1:]
+        args = ast.unparse(f.args)
+        return llist([lstr('def(' + args + '):')] + [lstr(x) for st in b for x in _u(st).split('\n')])
+    for grp, items in SRC_GROUPS.items():
+        for fl, cls, fn in items:
+            nm = f'src_{grp}_' + (cls + '_' if cls else '') + fn.strip('_')
+            o.item(nm, 'List (List Nat)', (lambda fl=fl, cls=cls, fn=fn: body(fl, cls, fn)), '[]')
+
+
+EXTRA.append(_srcsnap)
+
+
 if __name__ == '__main__':
     errs = write_extracted()
     print(open(os.path.join(LEAN, 'Gemato', 'Extracted.lean')).read())
